@@ -350,6 +350,20 @@ func classify(a oracleAns, obs string) string {
 		}
 		return m
 	}
+	strip0 := func(s string) string {
+		var r []string
+		if s != "-" {
+			for _, x := range strings.Split(s, ",") {
+				if !strings.HasPrefix(x, "0.") {
+					r = append(r, x)
+				}
+			}
+		}
+		return strings.Join(r, ",")
+	}
+	if so := strip0(obs); so == strip0(a.allowedA) || so == strip0(a.allowedB) {
+		return "height0-dropped" // the only discrepancy concerns entries of height 0
+	}
 	o, la, lb := set(obs), set(a.allowedA), set(a.allowedB)
 	lost, lostZero := 0, 0
 	for k, n := range la {
@@ -450,7 +464,9 @@ func (w *world) checkImage(ops []Op, img string, kind string, cont bool, altCras
 		more := append(append([]Op{}, full...), Op{K: "a", H: h, ID: 77}, Op{K: "f"}, Op{K: "c"}, Op{K: "o"})
 		a2 := w.ask(more, obs2)
 		w.c.Hist["image-continued"]++
-		if e1 != nil || e2 != nil || e3 != nil || e4 != nil || a2.pred != "1" {
+		if e1 == nil && e2 == nil && e3 == nil && e4 == nil && a2.pred != "1" && classify(a2, obs2) == "height0-dropped" {
+			w.c.Violation("height0-dropped", fmt.Sprintf("after reopening image %s and appending: got %s allowed %s", kind, short(obs2), short(a2.allowedA)), rep(), false)
+		} else if e1 != nil || e2 != nil || e3 != nil || e4 != nil || a2.pred != "1" {
 			w.c.Violation("unusable-after-recovery:"+kind, fmt.Sprintf("after reopening image %s: set=%v flush=%v close=%v reopen=%v got %s allowed %s", kind, e1, e2, e3, e4, short(obs2), short(a2.allowedA)), rep(), false)
 		} else if obs2 != a2.model {
 			w.c.Violation("model-mismatch-continued:"+kind, fmt.Sprintf("real %s model %s", short(obs2), short(a2.model)), rep(), true)
@@ -828,7 +844,7 @@ func (w *world) flushWithImages(dense bool) {
 	if dense {
 		nr = 40
 	}
-	if w.c.Thorough() && recLen < 4000 {
+	if w.c.Thorough() && recLen < 1200 && w.rng.Chance(25) {
 		for i := 0; i < recLen-1; i++ {
 			cuts[i] = true
 		}
@@ -1223,7 +1239,7 @@ func main() {
 	}
 	nAdv, nDrv, nCl := 28, 1, 3
 	if c.Thorough() {
-		nAdv, nDrv, nCl = 400, 12, 20
+		nAdv, nDrv, nCl = 160, 6, 10
 	}
 	for i := 0; i < nCl; i++ {
 		w.cleanupFocused()
